@@ -378,6 +378,11 @@ pub fn build(v: &VolCfg, seed: u64) -> Result<Built, String> {
     }
     // --- directories: slot streams ---
     let label: Option<[u8; 11]> = if r.chance(1, 2) { Some(*b"REFGENLABEL") } else { None };
+    // other systems set further attribute bits on the label entry (e.g. ARCHIVE)
+    let label_attr: u8 = *r.pick(&[0x08u8, 0x08, 0x28, 0x0A, 0x09, 0x2C]);
+    if label.is_some() && label_attr != 0x08 {
+        features.push("volume label entry with additional attribute bits");
+    }
     let mut fat_next: Vec<(u32, u32)> = vec![]; // (cluster, value)
     let eoc = |r: &mut Rng| -> u32 {
         let low = 0xF8 + r.below(8) as u32;
@@ -401,7 +406,7 @@ pub fn build(v: &VolCfg, seed: u64) -> Result<Built, String> {
         let label_pos = if d == 0 && label.is_some() { Some(r.usize_below(kids.len() + 1)) } else { None };
         for (ki, k) in kids.iter().enumerate() {
             if label_pos == Some(ki) {
-                slots.push(sfn_slot(&label.unwrap(), 0x08, 0, 0, 0, &[0; 5], 0, v.fat));
+                slots.push(sfn_slot(&label.unwrap(), label_attr, 0, 0, 0, &[0; 5], 0, v.fat));
                 if ki > 0 {
                     features.push("volume label in the middle of the root directory");
                 }
@@ -441,7 +446,7 @@ pub fn build(v: &VolCfg, seed: u64) -> Result<Built, String> {
             slots.push(sfn_slot(&nd.sfn, nd.attr, nd.nt, first, if nd.is_dir { 0 } else { nd.content.len() as u32 }, &nd.stamps, nd.tenth, v.fat));
         }
         if label_pos == Some(kids.len()) {
-            slots.push(sfn_slot(&label.unwrap(), 0x08, 0, 0, 0, &[0; 5], 0, v.fat));
+            slots.push(sfn_slot(&label.unwrap(), label_attr, 0, 0, 0, &[0; 5], 0, v.fat));
         }
         if d == 0 && v.fat != 32 {
             if slots.len() as u64 > root_entries {
@@ -525,6 +530,10 @@ pub fn build(v: &VolCfg, seed: u64) -> Result<Built, String> {
             _ => img.put_u32(base + u64::from(c) * 4, val),
         }
     };
+    let fat1_mode = if v.fat != 12 && r.chance(1, 4) { r.range(1, 2) } else { 0 };
+    if fat1_mode != 0 {
+        features.push("FAT[1] with the clean-shutdown or hard-error bit cleared");
+    }
     let pad_marked = r.chance(1, 2);
     if !pad_marked {
         features.push("FAT padding entries past the last cluster left zero");
@@ -553,7 +562,15 @@ pub fn build(v: &VolCfg, seed: u64) -> Result<Built, String> {
             _ => 0x0FFF_FFFF,
         };
         write_entry(&mut img, copy, 0, e0);
-        write_entry(&mut img, copy, 1, e1);
+        // FAT[1] carries the clean-shutdown / hard-error bits other drivers maintain (cleared bit = flag raised)
+        let e1_flags = match (v.fat, fat1_mode) {
+            (16, 1) => 0x7FFF,
+            (16, 2) => 0xBFFF,
+            (32, 1) => 0x07FF_FFFF,
+            (32, 2) => 0x0BFF_FFFF,
+            _ => e1,
+        };
+        write_entry(&mut img, copy, 1, e1_flags);
         let mut r2 = Rng::new(seed ^ 0xB175);
         for (c, val) in &fat_next {
             let hb = if hi_bits { (r2.below(16) as u32) << 28 } else { 0 };
